@@ -26,6 +26,29 @@ SH_declare = SH.declare
 invalid_parameter_names = {'this', 'shapesGraph', 'currentShape', 'path', 'PATH', 'value'}
 
 
+def query_with_shapes_graph_text(graph, query_text, init_bindings=None):
+    """
+    Runs a query whose text was written in the SHACL Shapes Graph (sh:select, sh:ask, sh:construct).
+    Text that is not valid SPARQL is an error of the shapes graph: it is reported as a
+    ReportableRuntimeError, not as the SPARQL parser's own exception.
+    """
+    from pyparsing import ParseBaseException
+
+    try:
+        return graph.query(query_text, initBindings=init_bindings)
+    except ParseBaseException as e:
+        raise ReportableRuntimeError(
+            "A SPARQL query in the SHACL Shapes Graph is not valid SPARQL: {}\n{}".format(str(e), query_text)
+        )
+    except Exception as e:
+        # rdflib raises a bare Exception for a prefix that is not declared
+        if type(e) is Exception and "namespace prefix" in str(e):
+            raise ReportableRuntimeError(
+                "A SPARQL query in the SHACL Shapes Graph uses an undeclared prefix: {}\n{}".format(str(e), query_text)
+            )
+        raise
+
+
 class SPARQLQueryHelper(object):
     bind_this_regex = re.compile(r"([\s{}()])[\$\?]this", flags=re.M)
     bind_value_regex = re.compile(r"([\s{}()])[\$\?]value", flags=re.M)
